@@ -708,9 +708,9 @@ pub fn run(args: &Args, rep: &mut Report) {
             random_cases(&mut e, Focus::Compute, 2, ls, &[1, 3], "random-compute");
         }
         "C10" => {
-            let pools: &[usize] = if thorough { &[1, 2, 3, 5, 8, 16] } else { &[1, 3, 8] };
+            let pools: &[usize] = if thorough { &[1, 2, 5, 16] } else { &[1, 3, 8] };
             compute_matrix(&mut e, if thorough { &[1, 4, 16] } else { &[1, 4] });
-            random_cases(&mut e, Focus::Compute, scale(8_000, 300_000), ls, pools, "random-compute");
+            random_cases(&mut e, Focus::Compute, scale(8_000, 100_000), ls, pools, "random-compute");
         }
         "C11" => {
             read_matrix(&mut e, thorough);
